@@ -3,6 +3,7 @@ import TinsModel.Crypto.Spec
 import TinsModel.Crypto.LemmasWep
 import TinsModel.Crypto.LemmasSafety
 import TinsModel.Crypto.LemmasTkip
+import TinsModel.Crypto.LemmasHandshake
 /-
   Property C09 — WEP / TKIP / CCMP decryption recovers exactly the plaintext, safely.
   Theorems only (helper lemmas live in TinsModel/Crypto/Lemmas*.lean).
@@ -373,5 +374,51 @@ theorem wpa2_unprotected_untouched (ip : InnerParser) (aes : Bytes → BlockFn) 
   cases fr.inner.findRaw with
   | none => rfl
   | some p => simp [h]
+
+/-! ## Handshake histories and key learning -/
+
+/-- **handshake_complete.** For every capturer state, every earlier history `pre` (anything at all: aborted
+    attempts, other stations, garbage), every station pair `k`: if the frames of pair `k` that follow are
+    M1 · M2⁺ · M3⁺ · M4 — retransmitted M2 / M3 allowed, frames of *other* pairs interleaved anywhere (beacons and
+    non-EAPOL data frames never reach the capturer) — then `process_packet` returns true on M4, hands over exactly
+    [M1, first M2, first M3, M4] for the pair and drops the partial handshake. -/
+theorem handshake_complete (c : Capturer) (k : AddrPair) (pre s2 s3 : List (Hdr × Eapol)) (h1 h4 : Hdr)
+    (m1 m2 m3 m4 : Eapol) (hk1 : pairOf h1 = k) (hk4 : pairOf h4 = k) (hm1 : isM1 m1 = true) (hm4 : isM4 m4 = true)
+    (hs2 : Segment k isM2 m2 s2) (hs3 : Segment k isM3 m3 s3) :
+    let c' := ((((c.run pre).process h1 m1).1.run s2).run s3)
+    (c'.process h4 m4).2 = true ∧
+    (c'.process h4 m4).1.completed = c'.completed ++ [⟨k.1, k.2, [m1, m2, m3, m4]⟩] ∧
+    (c'.process h4 m4).1.entry k = none :=
+  capturer_completes c k pre s2 s3 h1 h4 m1 m2 m3 m4 hk1 hk4 hm1 hm4 hs2 hs3
+
+/-- frames of other station pairs never disturb a pair's partial handshake -/
+theorem handshake_other_pairs_independent (c : Capturer) (h : Hdr) (e : Eapol) (k : AddrPair) (hk : k ≠ pairOf h) :
+    (c.process h e).1.entry k = c.entry k := process_other c h e k hk
+
+/-- **keys_learned.** With [M1, M2, M3] of the pair captured, the frame's access point known and the handshake
+    verifying under the network's PMK (PRF and MIC function are parameters), `WPA2Decrypter::decrypt` on message 4
+    installs exactly the derived session keys under the frame's (bssid, station) pair and reports the handshake. -/
+theorem keys_learned (ip : InnerParser) (aes : Bytes → BlockFn) (prf : Bytes → Bytes → Bytes)
+    (micf : Bool → Bytes → Bytes → Bytes) (st : Wpa2State) (fr : Frame) (m1 m2 m3 m4 : Eapol) (ssid pmk : Bytes)
+    (k : SessionKeys) (he : fr.inner.findEapol = some m4) (hm4 : isM4 m4 = true)
+    (hentry : st.cap.entry (pairOf fr.hdr) = some [m1, m2, m3]) (hcomp : st.cap.completed = [])
+    (hap : lookup st.aps (findApAddr fr.hdr) = some (ssid, pmk))
+    (hd : deriveKeys prf micf ⟨(pairOf fr.hdr).1, (pairOf fr.hdr).2, [m1, m2, m3, m4]⟩ pmk = some k) :
+    ∃ st' client, wpa2Decrypt ip aes prf micf st (.data fr) =
+        .ok (st', false, .data fr, [.handshake ssid fr.hdr.bssidAddr client]) ∧
+      lookup st'.keys (extractAddrPair fr.hdr) = some k ∧ st'.cap.completed = [] ∧
+      st'.cap.entry (pairOf fr.hdr) = none :=
+  decrypt_learns_keys ip aes prf micf st fr m1 m2 m3 m4 ssid pmk k he hm4 hentry hcomp hap hd
+
+/-- the decrypter's own capturer never keeps a completed handshake pending (invariant of `decrypt`) -/
+theorem decrypt_keeps_capturer_drained (ip : InnerParser) (aes : Bytes → BlockFn) (prf : Bytes → Bytes → Bytes)
+    (micf : Bool → Bytes → Bytes → Bytes) (st st' : Wpa2State) (p p' : Parsed) (r : Bool) (ev : List Event)
+    (hcomp : st.cap.completed = []) (h : wpa2Decrypt ip aes prf micf st p = .ok (st', r, p', ev)) :
+    st'.cap.completed = [] :=
+  wpa2Decrypt_keeps_completed_empty ip aes prf micf st st' p p' r ev hcomp h
+
+/-- non-vacuity of `handshake_complete`: concrete flag bytes of the four messages satisfy the classes -/
+example : isM1 ⟨1, 3, 2, [0x00, 0x8a], [], []⟩ = true ∧ isM2 ⟨1, 3, 2, [0x01, 0x0a], [], []⟩ = true ∧
+    isM3 ⟨1, 3, 2, [0x13, 0xca], [], []⟩ = true ∧ isM4 ⟨1, 3, 2, [0x03, 0x0a], [], []⟩ = true := by decide
 
 end Tins.Props.C09
